@@ -65,11 +65,13 @@ def ch(rng):
 
 
 MUT = ["sc", "asc", "sf", "ass", "+s", "+c", "+h", "ic", "pc", "ac", "cl", "cf", "pa", "sh", "tc", "tt", "sw", "-h", "-s", "-c",
-       "rv", "rc", "rs", "uf"]
+       "rv", "rc", "rs", "uf", "set", "<<i", "<<b", "++", "--"]
+# operations whose level-1 model is exact for Strings with embedded NULs (F9): length-based or C-string-view-based memmoves only
+NUL_OPS = ["asc", "+h", "+h", "set", "+s", "+c", "sc", "sf", "ic", "pc", "ac", "tc", "tt", "cl", "cf", "pa", "sh", "fl", "cp", "sub", "rv", "at", "ass", "uf"]
 QRY = ["at", "ioh", "ios", "ioc", "lih", "lis1", "lis", "cnh", "cns", "sws", "ews", "swh", "ewh", "swsi", "ewsi", "cmp", "cmpi",
-       "eqi", "iosi", "lisi", "iohi", "lihi", "pns", "swn", "fl"]
+       "eqi", "iosi", "lisi", "iohi", "lihi", "pns", "swn", "fl", "eqh", "eqhi", "swhi", "ewhi"]
 PRO = ["cp", "cpp", "sub", "suba", "subu", "wis", "wps", "was", "wih", "wph", "wah", "pad", "lo", "up", "mx", "tr", "wrc", "wrs",
-       "args", "argi", "wsf", "wpf", "wosf", "wopf", "wosh", "woph", "wons", "pls"]
+       "args", "argi", "wsf", "wpf", "wosf", "wopf", "wosh", "woph", "wons", "pls", "wsfh", "wpfh", "wosfi", "wopfi", "woshi", "wophi"]
 
 
 def gen_op(rng, name, ln, alias=0.2):
@@ -100,6 +102,11 @@ def gen_op(rng, name, ln, alias=0.2):
     if name == "rv":   return "rv", ln
     if name == "rc":   return "rc:%d:%d:%d:%d" % (ch(rng), ch(rng), cnt(rng), rng.choice([0, 0, 0, 1, ln // 2, ln, NOLIM])), ln
     if name == "rs":   return "rs:%s:%s:%d:%d" % (A(needle(rng)), A(rbytes(rng, rng.choice([0, 1, 2, 3, 6]))), cnt(rng), rng.choice([0, 0, 0, 1, ln // 2, ln, NOLIM])), ln + 3
+    if name == "set":  return "set:%d:%d" % (rng.choice([0, 1, max(0, ln - 1), ln // 2, ln]), ch(rng)), ln
+    if name == "<<i":  return "<<i:%d" % rng.choice([0, 7, -1, 42, 123456789, -2147483648, 2147483647]), ln + 3
+    if name == "<<b":  return "<<b:%d" % rng.randint(0, 1), ln + 5
+    if name == "++":   return "++", ln + 1
+    if name == "--":   return "--", max(0, ln - 1)
     if name == "uf":
         l = rng.choice(LENS)
         body = rbytes(rng, l)
@@ -114,7 +121,7 @@ def gen_op(rng, name, ln, alias=0.2):
     if name in ("ios", "lis", "cns", "iosi", "lisi"): return "%s:%s:%d" % (name, A(needle(rng)), idx(rng, ln)), ln
     if name == "ioc":  return "ioc:%s:%d" % (C(needle(rng)), idx(rng, ln)), ln
     if name in ("lis1", "sws", "ews", "swsi", "ewsi", "cmp", "cmpi", "eqi"): return "%s:%s" % (name, A(needle(rng) if rng.random() < 0.7 else None)), ln
-    if name in ("swh", "ewh"): return "%s:%d" % (name, ch(rng)), ln
+    if name in ("swh", "ewh", "eqh", "eqhi", "swhi", "ewhi"): return "%s:%d" % (name, ch(rng)), ln
     if name == "pns":  return "pns:%d" % rng.choice([0, 7, NOLIM]), ln
     if name == "swn":  return "swn:%d" % rng.randint(0, 1), ln
     if name == "fl":   return "fl", ln
@@ -135,6 +142,9 @@ def gen_op(rng, name, ln, alias=0.2):
     if name == "args": return "args:%s" % A(rbytes(rng, rng.choice([0, 1, 3, 8, 16]))), ln
     if name == "argi": return "argi:%d" % rng.choice([0, 1, -1, 42, -2147483648, 2147483647, 1000000]), ln
     if name in ("wsf", "wpf"): return "%s:%s" % (name, A(needle(rng))), ln
+    if name in ("wsfh", "wpfh"): return "%s:%d" % (name, rng.choice([ch(rng), ch(rng), 0])), ln
+    if name in ("wosfi", "wopfi"): return "%s:%s:%d" % (name, A(needle(rng)), cnt(rng)), ln
+    if name in ("woshi", "wophi"): return "%s:%d:%d" % (name, ch(rng), cnt(rng)), ln
     if name in ("wosf", "wopf"): return "%s:%s:%d" % (name, A(needle(rng)), cnt(rng)), ln
     if name in ("wosh", "woph"): return "%s:%d:%d" % (name, ch(rng), cnt(rng)), ln
     if name == "pls":  return "pls:%s" % A(rbytes(rng, grow)), ln
@@ -170,6 +180,28 @@ def gen_script(rng, nops, alias):
         elif name in MUT:
             ln = ln2
         ops.append(t)
+    return ";".join(ops)
+
+
+def gen_nul_script(rng, nops):
+    """F9: Strings with embedded NUL bytes (only reachable through += char(0) and writes through operator[])"""
+    ops, ln = [], 0
+    l = rng.choice([1, 2, 3, 7, 8, 14, 15, 16, 17, 20])
+    ops.append("asc:" + rbytes(rng, l, 0.0)); ln = l
+    ops.append(rng.choice(["+h:0", "set:%d:0" % rng.randint(0, max(0, l - 1)), "+h:0;+h:97", "set:0:0"]))
+    for _ in range(nops):
+        name = rng.choice(NUL_OPS)
+        if name == "+h":
+            ops.append("+h:%d" % rng.choice([0, 0, 97, 66])); ln += 1
+        elif name == "set":
+            ops.append("set:%d:%d" % (rng.randint(0, max(0, ln)), rng.choice([0, 0, 98])))
+        elif name == "uf":
+            ops.append("fl")
+        else:
+            t, ln2 = gen_op(rng, name, ln, 0.35)
+            ops.append(t)
+            if name in MUT: ln = ln2
+    ops.append("fl")
     return ";".join(ops)
 
 
@@ -253,7 +285,7 @@ class CHECK(vlib.Check):
                 "IndexOf/LastIndexOf/Contains/GetNumInstancesOf/StartsWith/EndsWith/Compare*/Equals* and their IgnoreCase forms, "
                 "ParseNumericSuffix, StartsWithNumber.")
     premises = ["memory allocation succeeds (muscleAlloc/muscleRealloc never return NULL in the model)",
-                "strings are NUL-free (F9: a String with an embedded NUL is outside the domain); lengths below 2^30",
+                "strings are NUL-free (F9: a String with an embedded NUL is outside the domain of the refinement theorems; the stream 'nul' corresponds such Strings against level 1 only, and C17_nul_string_truncates states the truncation); buffer requests up to 2^30 bytes (LIM)",
                 "memory safety and object lifetime of the C++ are observed by ASan/UBSan in the harness only",
                 "libc strstr/strchr/strcmp/strcasecmp/strncasecmp/tolower in the C locale behave as documented"]
     rule = ("operation scripts over one subject String generated from random.Random(seed): mutators, queries and producers (optionally "
@@ -272,6 +304,14 @@ class CHECK(vlib.Check):
             out.append(("random", "c17|" + gen_script(rng, nops, 0.2)))
         for i in range(n // 4):
             out.append(("random-alias", "c17|" + gen_script(rng, rng.choice([3, 5, 8]), 0.6)))
+        for i in range(n // 5):
+            out.append(("nul", "nul|" + gen_nul_script(rng, rng.choice([2, 4, 7]))))
+        for L in (0, 1, 7, 14, 15, 16, 17):
+            lit = "6162636465666768696a6b6c6d6e6f707172"[: 2 * L]
+            for pre in ("", "pa:40;"):
+                out.append(("nul", "nul|%sasc:%s;+h:0;fl;+h:99;fl;+s:@;fl;sh:0;cp;+c:@0;sc:@1:%d;fl" % (pre, lit, NOLIM)))
+                if L > 1:
+                    out.append(("nul", "nul|%sasc:%s;set:%d:0;fl;+c:@0;sf:@:1:%d;sub:0:%d;rv;fl;tc:1;fl" % (pre, lit, L // 2, NOLIM, NOLIM)))
         out += directed_alias()
         out += directed_boundary()
         out += directed_limits()
